@@ -217,11 +217,13 @@ class Grid2D(GridObject):
         )
 
         if not inverse:
+            # blank with the selection made on the source centroids: centres recomputed
+            # from the shifted origin can move by an ulp across a face of the box
+            keep = selected_centroids[np.ix_(v_ind, u_ind)].flatten()
             for child in copy.children:
-                if isinstance(getattr(child, "values", None), np.ndarray):
-                    indices = child.mask_by_extent(extent, inverse=inverse)
-                    values = child.values
-                    values[~indices] = child.nan_value
+                values = getattr(child, "values", None)
+                if isinstance(values, np.ndarray) and values.shape == keep.shape:
+                    values[~keep] = child.nan_value
                     child.values = values
 
         return copy
